@@ -9,3 +9,4 @@ CONSTANTS
   DjbLen = 2
   PoolNames = 2
   RawLen = 2
+  AbbrBig = FALSE
